@@ -125,6 +125,41 @@ fn mutate_lines(rng: &mut Rng, text: &str) -> Vec<String> {
     lines
 }
 
+const SOUP: &[&str] = &[
+    "2024/01/05", "2024-1-5", "2024/02/30", "2024/1", "=2024/01/06", "2024/01/05=2024/01/07", "*", "!", "(abc)", "(", ")",
+    "Migros", "SBB CFF FFS", "Assets:Cash", "Assets:Broker", "Expenses:Food Stuff", "Equity", "A:", ":B", "A::B",
+    "1", "-2.50", "1,000.00", "1,00", ".5", "5.", "-", "+", "--1", "0", "0.00", "1e5", "12345678901234567",
+    "USD", "EUR", "€", "\"M F\"", "\"", "$", "AAPL", "@", "@@", "@ 0 USD", "@@ 0", "{", "}", "{{", "}}", "{}", "{0 USD}",
+    "[2024/01/01]", "[", "]", "(lot note)", "=", "= 0", "= 1 USD", "==", ";", "; comment", ";:tag:", "; :a:b:", "; key: value",
+    "; key:: 1 USD", "; key::", "#", "%", "|", "account", "account Assets:Cash", "commodity", "commodity USD", "alias", "alias Cash",
+    "format", "format 1,000.00 USD", "format 0,0 USD", "note", "note x", "include", "include nothing*.ledger", "include .",
+    "include /", "apply tag x", "apply tag", "end apply tag", "end", "P 2024/01/01 USD 1 EUR", "P", "D 1,000.00 USD", "Y 2024",
+    "tag x", "payee x", "~ monthly", "= expr", "\t", "\r", "\u{feff}", "\u{0}", "\u{3000}", "：", "￥", "日本", "𝄞", "\u{301}",
+    "(1 USD + 2 USD)", "(1 USD * 2 EUR)", "(1 / 0)", "(1 USD / (2 - 2))", "((", "))", "1 USD = 1 USD @ 2 EUR", "-1 USD {2 EUR} [2024/01/01] @ 3 EUR",
+];
+
+fn soup_lines(rng: &mut Rng) -> Vec<String> {
+    let n = 3 + rng.usize(28);
+    let mut lines = Vec::with_capacity(n);
+    for _ in 0..n {
+        let mut l = String::new();
+        match rng.below(5) {
+            0 | 1 => l.push_str("    "),
+            2 => l.push_str(*rng.pick(&[" ", "\t", "  ", "        "])),
+            _ => {}
+        }
+        let k = rng.usize(7);
+        for j in 0..k {
+            if j > 0 {
+                l.push_str(*rng.pick(&[" ", "  ", "    ", "\t", ""]));
+            }
+            l.push_str(*rng.pick(SOUP));
+        }
+        lines.push(l);
+    }
+    lines
+}
+
 fn nested(depth: usize) -> String {
     let mut s = String::new();
     for _ in 0..depth {
@@ -183,7 +218,7 @@ impl Check for C06 {
         let mut big = false;
         let class;
         let mut extra_cmds: Vec<Vec<String>> = Vec::new();
-        match rng.below(11) {
+        match rng.below(13) {
             // truncation of a valid ledger: crash-point enumeration
             0..=3 => {
                 class = "tear";
@@ -498,6 +533,33 @@ impl Check for C06 {
                 extra_cmds.push(sv(&["balance", "--price-db", "/w/prices.db", "-X", t, "--historical", &root]));
                 extra_cmds.push(sv(&["primitive", "eval", "--date", "2024-06-01", "--price-db", "/w/prices.db", "-X", t, "-f", &root, "1", coms[rng.usize(4)]]));
             }
+            // token soup: a file assembled from the tokens of the grammar in no grammatical order
+            // ("arbitrary text, any interleaving of valid and invalid syntax"), with and without its
+            // final newline and cut at a few places
+            11 | 12 => {
+                class = "soup";
+                let lines = soup_lines(rng);
+                let fi = rng.usize(world.files.len());
+                let path = world.files[fi].path.clone();
+                if rng.chance(1, 2) {
+                    world.files[fi].items = vec![Item { blank: 0, entry: Entry::Raw(lines) }];
+                } else {
+                    world.files[fi].push(Entry::Raw(lines));
+                }
+                faults.push(vec![]);
+                let (files2, _) = world.render();
+                let n = files2[&path].len();
+                if n > 0 {
+                    faults.push(vec![FaultOp::Tear { path: path.clone(), n: n - 1 }]);
+                    let picks = match tier {
+                        Tier::Thorough => 24,
+                        Tier::Quick => 4,
+                    };
+                    for _ in 0..picks {
+                        faults.push(vec![FaultOp::Tear { path: path.clone(), n: rng.usize(n) }]);
+                    }
+                }
+            }
             // read faults on each file in turn
             _ => {
                 class = "read-fault";
@@ -528,6 +590,20 @@ impl Check for C06 {
         }
         let mut proc_ = random_proc(rng, true);
         proc_.eintr = false;
+        if extra_cmds.is_empty() && matches!(class, "tear" | "hostile" | "soup") && rng.chance(1, 2) {
+            // the report commands in their other shapes: converted, historical, ranged, filtered
+            let t = *rng.pick(&["USD", "EUR", "JPY", "CHF", "AAPL"]);
+            extra_cmds = all_cmds(&root);
+            extra_cmds.truncate(4);
+            match rng.below(4) {
+                0 => extra_cmds.push(sv(&["balance", "-X", t, "--now", "2024-12-31", &root])),
+                1 => extra_cmds.push(sv(&["balance", "-X", t, "--historical", &root])),
+                2 => extra_cmds.push(sv(&["balance", "--start", "2024-02-01", "--end", "2024-03-01", &root])),
+                _ => extra_cmds.push(sv(&["balance", "-X", t, "--start", "2024-01-15", "--end", "2024-03-01", &root])),
+            }
+            extra_cmds.push(sv(&["register", &root, *rng.pick(&["Assets:Cash", "Assets:Broker", "Expenses:Food", "nothing"])]));
+            extra_cmds.push(sv(&["primitive", "eval", "--date", "2024-06-01", "-X", t, "-f", &root, "(1 USD + 2 USD) * 3"]));
+        }
         Sc {
             world,
             faults,
